@@ -30,6 +30,33 @@ type tierSpec struct {
 	Bounds        string   `json:"bounds"`
 }
 
+// violation filter: a rig shared by several properties labels its assertions
+// "Cnn: ..."; a check only claims the labels (and engine VC kinds) listed.
+type violFilter struct {
+	LabelPrefixes []string `json:"label_prefixes"`
+	Kinds         []string `json:"kinds"` // engine VC kinds claimed: panic, deadlock, race, alloc
+}
+
+func (f *violFilter) claims(v *interp.Violation) bool {
+	if f == nil || (len(f.LabelPrefixes) == 0 && len(f.Kinds) == 0) {
+		return true
+	}
+	if v.Kind == "assert" {
+		for _, p := range f.LabelPrefixes {
+			if strings.HasPrefix(v.Label, p) {
+				return true
+			}
+		}
+		return false
+	}
+	for _, k := range f.Kinds {
+		if k == v.Kind {
+			return true
+		}
+	}
+	return false
+}
+
 type checkSpec struct {
 	ID          string   `json:"id"`
 	Pkg         string   `json:"pkg"`
@@ -37,6 +64,7 @@ type checkSpec struct {
 	Thorough    tierSpec `json:"thorough"`
 	Assumptions []string `json:"assumptions"`
 	Outside     []string `json:"outside"`
+	Filter      *violFilter `json:"claims"`
 }
 
 type knownFinding struct {
@@ -204,8 +232,13 @@ func cmdCheck(args []string) int {
 	var confirmed []*confirmedViolation
 	var vecs []nativeVector
 	var owners []*confirmedViolation
+	otherProps := 0
 	for _, r := range results {
 		for _, v := range r.Violations {
+			if !spec.Filter.claims(v) {
+				otherProps++
+				continue
+			}
 			cv := &confirmedViolation{Harness: r.Harness, V: v}
 			confirmed = append(confirmed, cv)
 			vecs = append(vecs, nativeVector{ID: len(vecs), Harness: r.Harness, Vars: v.Model})
@@ -329,6 +362,9 @@ func cmdCheck(args []string) int {
 		}
 	}
 	os.RemoveAll(workDir)
+	if otherProps > 0 {
+		fmt.Printf("note: %d counterexamples of this rig belong to other properties (labels/kinds not claimed by %s) and are reported by their own checks\n", otherProps, spec.ID)
+	}
 
 	writeEvidence(*verif, &spec, *tier, seed, results, confirmed, knownHitList(knownHits), validated, violations, inconclusive, time.Since(t0), e)
 
